@@ -6,8 +6,9 @@
    the per-band exact occupations. *)
 EXTENDS TetraWeights
 CONSTANTS NB, VALS, STARTS1, STEPS, NEF, THS
-VARIABLES ec, cor, efs, th, kr, G0, Gm, G1, pc
-vars == <<ec, cor, efs, th, kr, G0, Gm, G1, pc>>
+VARIABLES ec, cor, efs, th, kr, G0, Gm, G1, pc,
+          X0, X1          \* exact occupation / density of band b at level i (computed once per state: TLC re-evaluates definitions at every use)
+vars == <<ec, cor, efs, th, kr, G0, Gm, G1, pc, X0, X1>>
 
 BandTables == {bt \in [1..NB -> [1..5 -> VALS]] : \A b \in 1..(NB - 1) : \A i \in 1..5 : bt[b][i] <= bt[b + 1][i]}
 Grids == {[i \in 1..NEF |-> (a1 - 1) + (i - 1) * d] : a1 \in STARTS1, d \in STEPS}
@@ -28,17 +29,20 @@ Init == \E bt \in BandTables :
         /\ efs \in Grids /\ th \in THS /\ kr \in BOOLEAN
         /\ (kr => NB % 2 = 0)
         /\ AllAdmissible(cor, efs)
-        /\ G0 = <<>> /\ Gm = <<>> /\ G1 = <<>> /\ pc = "input"
+        /\ G0 = <<>> /\ Gm = <<>> /\ G1 = <<>> /\ pc = "input" /\ X0 = <<>> /\ X1 = <<>>
 Build == /\ pc = "input" /\ pc' = "done"
          /\ G0' = Groups(ec, cor, efs, 0, th, kr)
          /\ Gm' = Groups(ec, cor, efs, -1, th, kr)
          /\ G1' = Groups(ec, cor, efs, 1, th, kr)
+         /\ X0' = [b \in 1..NB |-> [i \in 1..NEF |-> ClosedOcc(cor[b], efs[i], 0)]]
+         /\ X1' = [b \in 1..NB |-> [i \in 1..NEF |-> ClosedOcc(cor[b], efs[i], 1)]]
          /\ UNCHANGED <<ec, cor, efs, th, kr>>
 Next == Build
 Spec == Init /\ [][Next]_vars
 Built == pc = "done"
 
-ExactTotal(n, i) == RSumSeq([b \in 1..NB |-> ClosedOcc(cor[b], efs[i], n)])
+Exact(n, b, i) == CASE n = 0 -> X0[b][i] [] n = 1 -> X1[b][i] [] n = -1 -> RSub(ROne, X0[b][i])
+ExactTotal(n, i) == RSumSeq([b \in 1..NB |-> Exact(n, b, i)])
 AllCorners == UNION {{ec[b]} \cup {cor[b][i] : i \in 1..4} : b \in 1..NB}
 Assumed == BandsOrderedAtCorners(ec, cor)
 GroupsAreDisjoint == Built => GroupsDisjoint(G0) /\ GroupsDisjoint(Gm) /\ GroupsDisjoint(G1)
@@ -53,14 +57,13 @@ SurfaceComplete == Built => \A i \in 1..NEF : GroupsTotal(G1, i) = ExactTotal(1,
 DegGroupOf(b) == LET B == Borders(ec, th, kr) IN B[CHOOSE k \in 1..Len(B) : B[k][1] < b /\ b <= B[k][2]]
 ExactMean(n, b, i) ==
    LET g == DegGroupOf(b) IN
-   RDivI(RSumSeq([k \in 1..(g[2] - g[1]) |->
-            IF n = -1 THEN RSub(ROne, ClosedOcc(cor[g[1] + k], efs[i], 0)) ELSE ClosedOcc(cor[g[1] + k], efs[i], n)]), g[2] - g[1])
+   RDivI(RSumSeq([k \in 1..(g[2] - g[1]) |-> Exact(n, g[1] + k, i)]), g[2] - g[1])
 PerBandExact == Built => \A b \in 1..NB : \A i \in 1..NEF :
    /\ PerBandWeight(G0, b, i) = ExactMean(0, b, i)
    /\ PerBandWeight(Gm, b, i) = ExactMean(-1, b, i)
    /\ PerBandWeight(G1, b, i) = ExactMean(1, b, i)
 WholeDegenerateGroups == Built => UnionsOfDegenerateGroups(G0, ec, th, kr) /\ UnionsOfDegenerateGroups(Gm, ec, th, kr) /\ UnionsOfDegenerateGroups(G1, ec, th, kr)
-CumDosLimits == Built => \A i \in 1..NEF : /\ efs[i] < Min(AllCorners) => GroupsTotal(G0, i) = RZero
-                                  /\ efs[i] > Max(AllCorners) => GroupsTotal(G0, i) = RI(NB)
+CumDosLimits == Built => \A i \in 1..NEF : ((efs[i] < Min(AllCorners) => GroupsTotal(G0, i) = RZero)
+                                           /\ (efs[i] > Max(AllCorners) => GroupsTotal(G0, i) = RI(NB)))
 CumDosMonotone == Built => \A i \in 1..(NEF - 1) : RLe(GroupsTotal(G0, i), GroupsTotal(G0, i + 1))
 =============================================================================
